@@ -284,6 +284,8 @@ def gen_inline(rng):
         for n in names:
             fields.append([n, gen_value(rng, [x for x, _ in fields], vars_before, opts)])
         friends = [gen_friend(rng, vars_before, opts) for _ in range(rng.choice([0, 0, 0, 1, 1, 2]))]
+        if friends and rng.random() < 0.3:               # the same friend twice (shared-macro friends)
+            friends.insert(rng.randint(1, len(friends)), copy.deepcopy(friends[0]))
         items.append({"t": "obj", "table": rng.choice(TABLES), "include": [], "fields": fields,
                       "friends": friends, "count": rng.choice([None, None, 1, 2, 3])})
     return {"items": items}, user
@@ -352,6 +354,9 @@ def factor_macros(f, rng, info):
             chunks.append(cur)
         if rng.random() < 0.15:
             chunks.insert(rng.randint(0, len(chunks)), [])       # a macro without fields
+        if rng.random() < 0.35:
+            new_items.append(_diamond(it, lead, own, chunks, rng, info, counter, junk, macs))
+            continue
         jf = rng.randint(0, len(friends))
         if jf and not chunks:
             chunks.append([])
@@ -388,6 +393,97 @@ def factor_macros(f, rng, info):
         new_items.append(new)
     # macro definitions may stand anywhere in the file (their relative order is kept)
     return {"items": _interleave(rng, new_items, macs)}
+
+
+def _diamond(it, lead, own, chunks, rng, info, counter, junk, macs):
+    """a macro graph in which one macro (`base`) is reached through two include paths:
+         lr: include: left, right   (both include base)      flat = c0 c1 c0 c2
+         lb: include: left, base                              flat = c0 c1 c0
+         bl: include: base, left                              flat = c0 c0 c1
+         ll: include: left, left                              flat = c0 c1 c0 c1
+       (optionally wrapped in one more macro).  By the property's statement the template equals the
+       one with that flat list written first: a field of base overridden by `left` is restored by
+       the second expansion of base, and base's friends appear once per expansion."""
+    friends = it["friends"]
+    own = list(own)
+    c = [list(x) for x in chunks[:3]] + [[] for _ in range(3 - len(chunks[:3]))]
+    extras = [list(x) for x in chunks[3:]]
+    v = rng.choice(["lr", "lr", "lr", "lb", "bl", "ll"])
+    # an override inside the diamond: left redefines a field of base
+    cand = [n for n, _ in c[0] if n not in [x for x, _ in c[1]]]
+    if cand and rng.random() < 0.8:
+        c[1].insert(rng.randint(0, len(c[1])), [rng.choice(cand), junk()])
+        info["diamond_overrides"] += 1
+    k = next((i for i in range(1, len(friends)) if friends[i] == friends[0]), None)
+    B, M, T = [], [], []
+    if v == "lr":
+        if k is not None and rng.random() < 0.85:
+            B, M = [friends[0]], friends[1:k]
+            T = friends[k + 1:k + 1 + rng.randint(0, len(friends) - k - 1)]
+            jf = k + 1 + len(T)
+        else:
+            jf = rng.randint(0, len(friends))
+            x = rng.randint(0, jf)
+            M, T = friends[:x], friends[x:jf]
+    elif v == "lb":
+        if k is not None and rng.random() < 0.85:
+            B, M, jf = [friends[0]], friends[1:k], k + 1
+        else:
+            jf = rng.randint(0, len(friends))
+            M = friends[:jf]
+    elif v == "bl":
+        if k == 1 and rng.random() < 0.85:
+            jf = rng.randint(2, len(friends))
+            B, M = [friends[0]], friends[2:jf]
+        else:
+            jf = rng.randint(0, len(friends))
+            M = friends[:jf]
+    else:
+        if k == 1 and rng.random() < 0.85:
+            B, jf = [friends[0]], 2
+        else:
+            jf = 0
+    if B:
+        info["diamond_friends"] += 1
+    if v != "lr":
+        extras.insert(0, c[2])
+        c[2] = []
+    flat = {"lr": c[0] + c[1] + c[0] + c[2], "lb": c[0] + c[1] + c[0], "bl": c[0] + c[0] + c[1],
+            "ll": c[0] + c[1] + c[0] + c[1]}[v]
+    for e in extras:
+        flat = flat + e
+    # whatever the last macro definition of a leading field is, the template must end up with the
+    # inline definition: the template's own fields override all macros
+    own_names = [n for n, _ in own]
+    for n, real in lead:
+        if n in own_names:
+            continue
+        last = [d for x, d in flat if x == n]
+        if not last or rdef(last[-1]) != rdef(real):
+            own.insert(rng.randint(0, len(own)), [n, real])
+            own_names.append(n)
+    def nm():
+        counter[0] += 1
+        return "m%d" % counter[0]
+    base, left, right = nm(), nm(), nm()
+    st = lambda: rng.randint(0, 2 * len(INC_STYLES) - 1)
+    macs.append({"t": "macro", "name": base, "include": [], "fields": c[0], "friends": B})
+    macs.append({"t": "macro", "name": left, "include": [base], "inc_style": st(), "fields": c[1], "friends": M})
+    inc = {"lr": [left, right], "lb": [left, base], "bl": [base, left], "ll": [left, left]}[v]
+    if v == "lr":
+        macs.append({"t": "macro", "name": right, "include": [base], "inc_style": st(), "fields": c[2], "friends": T})
+    if rng.random() < 0.3:
+        top = nm()
+        macs.append({"t": "macro", "name": top, "include": inc, "inc_style": st(), "fields": [], "friends": []})
+        inc = [top]
+    for e in extras:
+        x = nm()
+        macs.append({"t": "macro", "name": x, "include": [], "fields": e, "friends": []})
+        inc.append(x)
+    info["diamonds"] += 1
+    info["macros"] += len(inc) + 2
+    info["max_nest"] = max(info["max_nest"], 2)
+    return dict(it, include=inc, fields=own, friends=friends[jf:], inc_style=st())
 
 
 def factor_files(f, rng, info):
@@ -473,6 +569,35 @@ def gen_tree(rng, depth=0, budget=None):
     return {"items": items}
 
 
+def gen_tree_diamond(rng):
+    """macros sharing a nested macro, with overridden fields and friends in the shared macro"""
+    val = lambda: rng.choice([1, 2, "x", "${{id}}", None, True, "base", 0])
+    fr = lambda: [gen_friend(rng, [], [])] if rng.random() < 0.5 else []
+    bn = rng.sample(FIELD_POOL[:4], rng.randint(1, 3))
+    items = [{"t": "macro", "name": "base", "include": [], "fields": [[n, val()] for n in bn], "friends": fr()}]
+    for name in ("left", "right"):
+        ns = rng.sample(FIELD_POOL[:5], rng.randint(0, 3))
+        if name == "left" and bn[0] not in ns:
+            ns.append(bn[0])                                  # left overrides a field of base
+        items.append({"t": "macro", "name": name, "include": rng.choice([["base"], ["base"], ["base", "base"]]),
+                      "inc_style": rng.randint(0, 2 * len(INC_STYLES) - 1),
+                      "fields": [[n, val()] for n in ns], "friends": fr() if rng.random() < 0.3 else []})
+    items.append({"t": "macro", "name": "top", "include": rng.choice([["left", "right"], ["right", "left"], ["left", "base"]]),
+                  "fields": [], "friends": []})
+    for _ in range(rng.randint(1, 2)):
+        inc = rng.choice([["left", "right"], ["right", "left"], ["left", "base"], ["base", "left"], ["left", "left"],
+                          ["base", "base"], ["top"], ["top", "base"], ["base", "top", "right"], ["left", "right", "left"]])
+        ns = rng.sample(FIELD_POOL[:6], rng.randint(0, 2))
+        items.append({"t": "obj", "table": rng.choice(TABLES), "include": inc,
+                      "inc_style": rng.randint(0, 2 * len(INC_STYLES) - 1),
+                      "fields": [[n, val()] for n in ns], "friends": fr() if rng.random() < 0.3 else [], "count": None})
+    rng.shuffle(items)
+    if rng.random() < 0.3:                                    # part of the macros in an include file
+        k = rng.randint(1, len(items) - 1)
+        items = [{"t": "inc", "path": "dia.yml", "file": {"items": items[:k]}}] + items[k:]
+    return {"items": items}
+
+
 # =================================================================== generation: options
 def opt_case(decls, user):
     return {"kind": "options", "decls": decls, "user": user}
@@ -522,8 +647,8 @@ def generate(rng, tier):
     for _ in range(n_meta):
         inline, user = gen_inline(rng)
         cases.append({"kind": "meta", "inline": inline, "user": user, "fseed": rng.randint(0, 2 ** 31)})
-    for _ in range(n_tree):
-        cases.append({"kind": "tree", "main": gen_tree(rng), "user": {}})
+    for i in range(n_tree):
+        cases.append({"kind": "tree", "main": gen_tree_diamond(rng) if i % 4 == 0 else gen_tree(rng), "user": {}})
     for _ in range(n_opt):
         cases.append(gen_options_random(rng))
     return cases
@@ -727,6 +852,40 @@ def _bad_include(names, env):
     return None
 
 
+def _hand_expand(names, env):
+    """the macro fields / friends "written first": every include expanded where it stands, a macro's
+    own includes before its own fields (no de-duplication); None if a macro is unknown or cyclic"""
+    fields, friends = [], []
+
+    def walk(n, stack):
+        if n not in env or n in stack:
+            return False
+        for c in env[n]["include"]:
+            if not walk(c, stack + [n]):
+                return False
+        fields.extend(env[n]["fields"])
+        friends.extend(env[n]["friends"])
+        return True
+    for n in names:
+        if not walk(n, []):
+            return None
+    return fields, friends
+
+
+def _spec_template(t, env):
+    """expected (field list, friends) of template t by the property's statement: macro fields first,
+    later definitions override earlier ones, own fields override all, each field once"""
+    h = _hand_expand(t["include"], env)
+    if h is None:
+        return None
+    order, last = [], {}
+    for n, v in h[0] + t["fields"]:
+        if n not in last:
+            order.append(n)
+        last[n] = v
+    return [[n, rdef(last[n])] for n in order], [rfriend(x) for x in h[1] + t["friends"]]
+
+
 def expected_option(decl, user):
     if decl["name"] in user:
         return ("value", user[decl["name"]])
@@ -825,6 +984,15 @@ def oracle(case, obs):
                 return f"macros: a template includes a macro chain with an {bad} macro but the recipe was accepted"
             if _has_missing(f):
                 return "include_file: a missing include file was accepted"
+            objs = [s for s in p["ok"]["stmts"] if s[0] == "obj"]
+            tmpls = _all_templates(f)
+            if len(objs) == len(tmpls):
+                for s, t in zip(objs, tmpls):
+                    exp = _spec_template(t, env)
+                    if exp is not None and s[1] == t["table"] and (s[2] != exp[0] or s[3] != exp[1]):
+                        return (f"transparency: template {t['table']} include={t['include']}: parsed fields/friends "
+                                f"{json.dumps([s[2], s[3]])[:300]} differ from the macro fields written first "
+                                f"{json.dumps(list(exp))[:300]}")
         else:
             if p["err"] != "DGE":
                 return f"macros: recipe rejected with {p['err']} instead of a recipe error"
@@ -945,8 +1113,8 @@ def directed_search(rng, disagreeing):
     for _ in range(2600):
         inline, user = gen_inline(rng)
         out.append({"kind": "meta", "inline": inline, "user": user, "fseed": rng.randint(0, 2 ** 31)})
-    for _ in range(1600):
-        out.append({"kind": "tree", "main": gen_tree(rng), "user": {}})
+    for i in range(1600):
+        out.append({"kind": "tree", "main": gen_tree_diamond(rng) if i % 3 == 0 else gen_tree(rng), "user": {}})
     for _ in range(1200):
         out.append(gen_options_random(rng))
     return out
